@@ -146,7 +146,7 @@ class _GhostResult:
                   'nothing_without_items', 'resource_version_of_the_list', 'failures_propagate'],
          canaries=['canary.never_fails', 'canary.always_versioned', 'canary.kind_always_filled'],
          trusted=['api.get by contract N5: one request through api.request (N2/N3); the parsed JSON body or raises',
-                  'Resource.get_url by contract O11', 'str.removesuffix (Python 3.9+)',
+                  'Resource.get_url by contract O11d (deductive; O11 bounded for the quoting)', 'str.removesuffix (Python 3.9+)',
                   'precondition (K8s API): the list document is a JSON object; its kind/apiVersion, if present, are strings; '
                   'its metadata, if present, is an object; its items, if present, are a list of objects'])
 def NC1(vc):
@@ -208,7 +208,7 @@ def NC1(vc):
             rsp['items'] = source
         st['rsp'] = rsp
         return rsp
-    vc.used('api.get', 'N5'); vc.used('references.Resource.get_url', 'O11')
+    vc.used('api.get', 'N5'); vc.used('references.Resource.get_url', 'O11d')
 
     # ---- the loop contract of `for item in rsp.get('items', [])`
     def invariant(loc):
@@ -776,7 +776,7 @@ def _post_failure_reps():
                   'other_failures_propagate', 'ref_not_modified'],
          canaries=['canary.always_posts', 'canary.never_cut', 'canary.never_raises', 'canary.never_logs', 'canary.namespace_always_default'],
          trusted=['api.post by contract N5 (one request through api.request, N2: the retried kinds escalate as themselves once the '
-                  'backoffs are exhausted)', 'api.get_default_namespace by contract NC6', 'Resource.get_url by contract O11',
+                  'backoffs are exhausted)', 'api.get_default_namespace by contract NC6', 'Resource.get_url by contract O11d (deductive; O11 bounded for the quoting)',
                   'datetime.datetime.now / isoformat / fromisoformat (real library code, run natively)', 'copy.copy of a dict',
                   'the message text is abstracted to its structure (_Text): len, constant slices, concatenation'])
 def NC4(vc):
@@ -849,7 +849,7 @@ def NC4(vc):
             st['thrown'] = _mk(reps[k - 1], status=[503, 422][vc.nondet(2, 'status')] if scenario == 'sent' else 500)
             raise st['thrown']
         return Opaque('created-event')
-    vc.used('api.post', 'N5'); vc.used('api.get_default_namespace', 'NC6'); vc.used('references.Resource.get_url', 'O11')
+    vc.used('api.post', 'N5'); vc.used('api.get_default_namespace', 'NC6'); vc.used('references.Resource.get_url', 'O11d')
     ld = vc.load('kopf._cogs.clients.events', 'post_event', stubs={'api.post': post, 'api.get_default_namespace': get_default_namespace})
     kw = dict(ref=ref, type=etype, reason=reason, resource=resource, settings=settings, logger=logger)
     if mk == 1:
@@ -938,7 +938,7 @@ _ABSENT = Opaque('<absent>')
          clauses=['one_post_to_the_collection', 'body_wins_over_arguments', 'rest_of_the_body_kept', 'returns_the_created_object',
                   'failures_propagate'],
          canaries=['canary.never_fails', 'canary.always_namespaced', 'canary.arguments_always_used'],
-         trusted=['api.post by contract N5', 'Resource.get_url by contract O11'])
+         trusted=['api.post by contract N5', 'Resource.get_url by contract O11d (deductive; O11 bounded for the quoting)'])
 def NC5(vc):
     """
     creating.create_obj(settings, resource, namespace=None, name=None, body=None, logger): exactly ONE api.post of the object
@@ -979,7 +979,7 @@ def NC5(vc):
             st['thrown'] = _mk(reps[k - 1], status=409)
             raise st['thrown']
         return created
-    vc.used('api.post', 'N5'); vc.used('references.Resource.get_url', 'O11')
+    vc.used('api.post', 'N5'); vc.used('references.Resource.get_url', 'O11d')
     ld = vc.load('kopf._cogs.clients.creating', 'create_obj', stubs={'api.post': post})
     kw = dict(settings=settings, resource=resource, logger=logger)
     for k, v in (('body', body), ('namespace', arg_ns), ('name', arg_name)):
